@@ -49,7 +49,7 @@ Sources == 0..(N + 1)
 LeafKinds == {"leaf", "leafv"}
 Leaves == {n \in Nodes : Kind(n) \in LeafKinds}
 SchedLeaves == {n \in Nodes : Kind(n) = "sched"}
-OwnsSource(n) == Kind(n) \in {"when_all", "when_any", "stop_when"}     \* reference-counted fan-out with an own stop source
+OwnsSource(n) == Kind(n) \in {"when_all", "when_all_range", "when_any", "stop_when"}     \* reference-counted fan-out with an own stop source
 HasSource(n) == OwnsSource(n) \/ Kind(n) = "lvwss"                       \* ... plus let_value_with_stop_source
 FnKinds == {"then", "thenv", "upon_error", "upon_done", "let_value", "let_error", "let_done",
             "retry_when", "repeat_effect_until", "just_from", "defer"}
@@ -181,6 +181,7 @@ DoStart(T, n) ==
          Repl(Reg(T1, t, n), RegFrames(T, t, n) \o <<Sig("start", Kids(n)[1], NONE)>>)
     [] K = "stop_if_requested" ->
          Repl(T0, <<Sig("complete", n, IF ReqOf(T, t) THEN Done ELSE Val(<<>>))>>)
+    [] K = "when_all_range" /\ Len(Kids(n)) = 0 -> Repl(T0, <<Sig("complete", n, Val(<<>>))>>)   \* empty range: immediate value
     [] OwnsSource(n) ->
          LET T1 == [T0 EXCEPT !.cnt[n] = Len(Kids(n)), !.req[n] = FALSE, !.doe[n] = NONE, !.first[n] = NONE,
                               !.slot[n] = [i \in 1..Len(Kids(n)) |-> NONE]] IN
@@ -242,7 +243,7 @@ DoComplete(T, k, r) ==
            IF i < Len(Kids(q)) /\ r.ch = "v"
            THEN Repl(T0, <<Sig("start", Kids(q)[i + 1], NONE)>>)
            ELSE Fwd
-      [] K = "when_all" ->
+      [] K \in {"when_all", "when_all_range"} ->
            IF r.ch = "v"
            THEN Repl([T0 EXCEPT !.slot[q][i] = r], <<Sig("elem", q, NONE)>>)
            ELSE IF T0.doe[q] = NONE
@@ -288,6 +289,8 @@ DoElem(T, q) ==
             <<Sig("complete", q,
                 CASE Kind(q) = "stop_when" -> T.slot[q][1]
                   [] Kind(q) = "when_any" -> T.first[q]
+                  \* when_all_range does not consult the receiver's stop token when it delivers
+                  [] Kind(q) = "when_all_range" -> IF T.doe[q] # NONE THEN T.doe[q] ELSE Val(Concat(T, q))
                   [] OTHER -> IF ReqOf(T, TokenOf(q)) THEN Done
                               ELSE IF T.doe[q] # NONE THEN T.doe[q]
                               ELSE Val(Concat(T, q)))>>)
@@ -391,7 +394,7 @@ StopReachesRunningLeaves ==
 LosersAreStopped ==
   Quiescent => \A q \in Nodes :
      (/\ S.st[q] = "started" /\ OwnsSource(q)
-      /\ \/ (Kind(q) = "when_all" /\ S.doe[q] # NONE) \/ (Kind(q) = "when_any" /\ S.first[q] # NONE)
+      /\ \/ (Kind(q) \in {"when_all", "when_all_range"} /\ S.doe[q] # NONE) \/ (Kind(q) = "when_any" /\ S.first[q] # NONE)
          \/ (Kind(q) = "stop_when" /\ S.cnt[q] < 2)) => S.req[q]
 \* C05: a sequenced successor starts only after its predecessor finished
 SequencedStepsDoNotOverlap ==
